@@ -84,27 +84,36 @@ Rng(lay, name) == LET e == CHOOSE i \in 1..Len(lay) : lay[i].name = name
                   IN ToString(lay[e].lo) \o "-" \o ToString(lay[e].hi)
 B(b) == IF b THEN "1" ELSE "0"
 
-Header(v, lay) ==
-  << "[GLOBAL]", "HTS_VOICE_VERSION:1.0", "SAMPLING_FREQUENCY:" \o ToString(v.rate),
-     "FRAME_PERIOD:" \o ToString(v.fperiod), "NUM_STATES:" \o ToString(v.nstate),
-     "NUM_STREAMS:" \o ToString(Len(v.streams)),
-     "STREAM_TYPE:" \o Join([s \in 1..Len(v.streams) |-> v.streams[s].name], ","),
-     "FULLCONTEXT_FORMAT:HTS_TTS_JPN", "FULLCONTEXT_VERSION:1.0",
-     "GV_OFF_CONTEXT:" \o Join([i \in 1..Len(v.gvoff) |-> Q(v.gvoff[i])], ","), "COMMENT:",
-     "[STREAM]" >>
-  \o [s \in 1..Len(v.streams) |-> "VECTOR_LENGTH[" \o v.streams[s].name \o "]:" \o ToString(v.streams[s].vlen)]
-  \o [s \in 1..Len(v.streams) |-> "IS_MSD[" \o v.streams[s].name \o "]:" \o B(v.streams[s].msd)]
-  \o [s \in 1..Len(v.streams) |-> "NUM_WINDOWS[" \o v.streams[s].name \o "]:" \o ToString(Len(v.streams[s].wins))]
-  \o [s \in 1..Len(v.streams) |-> "USE_GV[" \o v.streams[s].name \o "]:" \o B(v.streams[s].usegv)]
-  \o [s \in 1..Len(v.streams) |-> "OPTION[" \o v.streams[s].name \o "]:" \o Join(v.streams[s].opts, ",")]
-  \o << "[POSITION]", "DURATION_PDF:" \o Rng(lay, "DURATION_PDF"), "DURATION_TREE:" \o Rng(lay, "DURATION_TREE") >>
-  \o [s \in 1..Len(v.streams) |-> "STREAM_WIN[" \o v.streams[s].name \o "]:" \o
-         Join([w \in 1..Len(v.streams[s].wins) |-> Rng(lay, "WIN:" \o v.streams[s].name \o ":" \o ToString(w))], ",")]
-  \o [s \in 1..Len(v.streams) |-> "STREAM_PDF[" \o v.streams[s].name \o "]:" \o Rng(lay, "STREAM_PDF[" \o v.streams[s].name \o "]")]
-  \o [s \in 1..Len(v.streams) |-> "STREAM_TREE[" \o v.streams[s].name \o "]:" \o Rng(lay, "STREAM_TREE[" \o v.streams[s].name \o "]")]
-  \o [i \in 1..Len(GvStreams(v)) |-> LET n == v.streams[GvStreams(v)[i]].name IN "GV_PDF[" \o n \o "]:" \o Rng(lay, "GV_PDF[" \o n \o "]")]
-  \o [i \in 1..Len(GvStreams(v)) |-> LET n == v.streams[GvStreams(v)[i]].name IN "GV_TREE[" \o n \o "]:" \o Rng(lay, "GV_TREE[" \o n \o "]")]
-  \o << "[DATA]" >>
+\* header as key/value records; `kind` and `nums` describe the value for the fault model (Faults.tla):
+\*   "sec" section marker, "int" one number, "bool", "range" a-b, "ranges" a-b,c-d,.., "str" anything else
+KV(k, val, kind, nums) == [k |-> k, v |-> val, kind |-> kind, nums |-> nums]
+Sec(name) == KV(name, "", "sec", <<>>)
+IntKV(k, n) == KV(k, ToString(n), "int", <<n>>)
+LayOf(lay, name) == lay[CHOOSE i \in 1..Len(lay) : lay[i].name = name]
+RangeKV(k, lay, name) == LET e == LayOf(lay, name) IN KV(k, Rng(lay, name), "range", <<e.lo, e.hi>>)
+HeaderKV(v, lay) ==
+  << Sec("[GLOBAL]"), KV("HTS_VOICE_VERSION", "1.0", "str", <<>>), IntKV("SAMPLING_FREQUENCY", v.rate),
+     IntKV("FRAME_PERIOD", v.fperiod), IntKV("NUM_STATES", v.nstate), IntKV("NUM_STREAMS", Len(v.streams)),
+     KV("STREAM_TYPE", Join([s \in 1..Len(v.streams) |-> v.streams[s].name], ","), "names", <<>>),
+     KV("FULLCONTEXT_FORMAT", "HTS_TTS_JPN", "str", <<>>), KV("FULLCONTEXT_VERSION", "1.0", "str", <<>>),
+     KV("GV_OFF_CONTEXT", Join([i \in 1..Len(v.gvoff) |-> Q(v.gvoff[i])], ","), "pats", <<>>), KV("COMMENT", "", "str", <<>>),
+     Sec("[STREAM]") >>
+  \o [s \in 1..Len(v.streams) |-> IntKV("VECTOR_LENGTH[" \o v.streams[s].name \o "]", v.streams[s].vlen)]
+  \o [s \in 1..Len(v.streams) |-> KV("IS_MSD[" \o v.streams[s].name \o "]", B(v.streams[s].msd), "bool", <<>>)]
+  \o [s \in 1..Len(v.streams) |-> IntKV("NUM_WINDOWS[" \o v.streams[s].name \o "]", Len(v.streams[s].wins))]
+  \o [s \in 1..Len(v.streams) |-> KV("USE_GV[" \o v.streams[s].name \o "]", B(v.streams[s].usegv), "bool", <<>>)]
+  \o [s \in 1..Len(v.streams) |-> KV("OPTION[" \o v.streams[s].name \o "]", Join(v.streams[s].opts, ","), "opts", <<>>)]
+  \o << Sec("[POSITION]"), RangeKV("DURATION_PDF", lay, "DURATION_PDF"), RangeKV("DURATION_TREE", lay, "DURATION_TREE") >>
+  \o [s \in 1..Len(v.streams) |-> LET n == v.streams[s].name IN
+         KV("STREAM_WIN[" \o n \o "]", Join([w \in 1..Len(v.streams[s].wins) |-> Rng(lay, "WIN:" \o n \o ":" \o ToString(w))], ","),
+            "ranges", Flat([w \in 1..Len(v.streams[s].wins) |-> LET e == LayOf(lay, "WIN:" \o n \o ":" \o ToString(w)) IN <<e.lo, e.hi>>]))]
+  \o [s \in 1..Len(v.streams) |-> LET n == "STREAM_PDF[" \o v.streams[s].name \o "]" IN RangeKV(n, lay, n)]
+  \o [s \in 1..Len(v.streams) |-> LET n == "STREAM_TREE[" \o v.streams[s].name \o "]" IN RangeKV(n, lay, n)]
+  \o [i \in 1..Len(GvStreams(v)) |-> LET n == "GV_PDF[" \o v.streams[GvStreams(v)[i]].name \o "]" IN RangeKV(n, lay, n)]
+  \o [i \in 1..Len(GvStreams(v)) |-> LET n == "GV_TREE[" \o v.streams[GvStreams(v)[i]].name \o "]" IN RangeKV(n, lay, n)]
+  \o << Sec("[DATA]") >>
+KVLine(e) == IF e.kind = "sec" THEN e.k ELSE e.k \o ":" \o e.v
+Header(v, lay) == LET kv == HeaderKV(v, lay) IN [i \in 1..Len(kv) |-> KVLine(kv[i])]
 
 Render(v) == LET bs == Blobs(v)  lay == Layout(bs, 0) IN
   [header |-> Header(v, lay), data |-> Flat([i \in 1..Len(bs) |-> bs[i].toks])]
